@@ -22,6 +22,12 @@ mod fam_nfs;
 mod fam_stream;
 mod iterscript;
 mod fam_streamw;
+mod scale_common;
+mod scale_iovec;
+mod scale_codec;
+mod scale_stream;
+mod scale_readn;
+mod scale_tlv;
 mod util;
 mod unwind;
 
@@ -48,6 +54,13 @@ fn families() -> Vec<Box<dyn Family>> {
     v.push(Box::new(fam_stream::ReaderFamily));
     v.push(Box::new(fam_streamw::ChunkerWFamily));
     v.push(Box::new(fam_streamw::ReaderWFamily));
+    v.push(Box::new(scale_iovec::ScaleIovecFamily));
+    v.push(Box::new(scale_codec::ScaleCodecFamily));
+    v.push(Box::new(scale_stream::ScaleChunkerFamily));
+    v.push(Box::new(scale_stream::ScaleReaderFamily));
+    v.push(Box::new(scale_readn::ScaleReadNFamily));
+    v.push(Box::new(scale_tlv::ScaleTlvFamily));
+    v.push(Box::new(scale_tlv::ScaleTlvViewFamily));
     v
 }
 
